@@ -167,9 +167,12 @@ Qed.
 
 (* ---------- non-fatal alerts ---------- *)
 
-(* with room in the buffer and once established, recv_conn is the receive path of Rec/Recv.v *)
-Lemma recv_conn_established W lease s w : recv_conn W lease false true s w = recv W lease s w.
-Proof. unfold recv_conn. rewrite recv_fb_open. cbn [negb andb]. now destruct (recv W lease s w). Qed.
+(* with room in the buffer and once established, recv_conn is the established receive path of Rec/Recv.v *)
+Lemma recv_conn_established W lease s w : recv_conn W lease false true s w = recv_est true W lease s w.
+Proof.
+  unfold recv_conn, recv_est. cbn [andb negb]. destruct (unprotected_alert w); [reflexivity|].
+  rewrite recv_fb_open. now destruct (recv W lease s w).
+Qed.
 
 (* WHILE THE HANDSHAKE IS RUNNING an unprotected warning alert (anybody can send one) is inert: it surfaces
    no error, draws no alert, closes nothing, delivers nothing, and leaves epoch, keys, queue and closed flag
@@ -181,7 +184,7 @@ Theorem warning_alert_inert_before_establishment W lease full s w level desc :
   r_epoch (fst r) = r_epoch s /\ r_init (fst r) = r_init s /\ r_queue (fst r) = r_queue s /\
   r_closed (fst r) = r_closed s /\ r_cid (fst r) = r_cid s.
 Proof.
-  intros He Hb Hw. cbv zeta. unfold recv_conn, disp_content, recv_fb, gated, dispatch. rewrite He, Hb.
+  intros He Hb Hw. cbv zeta. unfold recv_conn. cbn [andb]. unfold disp_content, recv_fb, gated, dispatch. rewrite He, Hb.
   cbn [N.eqb is_hs andb]. rewrite Hw. cbn [negb andb].
   cbn [is_warning] in Hw. apply negb_true_iff in Hw. rewrite Hw.
   assert (Hd : (desc =? desc_close_notify) = false) by (apply orb_false_iff in Hw; tauto). rewrite Hd.
@@ -191,17 +194,25 @@ Proof.
   rewrite andb_false_r. cbn. rewrite ?Ec. auto 10.
 Qed.
 
-(* once established the same record is, as coded, handed to Read as an error and the connection continues *)
-Theorem warning_alert_after_establishment W lease s w level desc :
-  r_closed s = false -> w_epoch w = 0 -> w_clear w = CAlert level desc -> is_warning (CAlert level desc) = true ->
+(* ONCE ESTABLISHED every unprotected alert - fatal, close_notify or warning - is inert: nothing is output
+   (no close, no close_notify reply, no Read error), the state is untouched (no replay commit), full buffer or
+   not.  The post-establishment half of exception X1 is gone (d95e20d). *)
+Theorem unprotected_alert_inert_established_conn W lease full s w :
+  unprotected_alert w = true -> recv_conn W lease full true s w = (s, []).
+Proof. intro H. unfold recv_conn. now rewrite H. Qed.
+
+(* what X1 still is: WHILE THE HANDSHAKE IS RUNNING an unprotected fatal alert (or close_notify) with a fresh
+   number closes the endpoint - DTLS 1.2 alerts are unauthenticated until the epoch changes *)
+Theorem unprotected_fatal_alert_before_establishment W lease s w desc :
+  r_closed s = false -> w_epoch w = 0 -> w_clear w = CAlert alert_fatal desc -> desc <> desc_close_notify ->
   check maxseq48 (get_win W 0 (r_wins s)) (w_seq w) = true ->
-  snd (recv_conn W lease false true s w) = [OMark 0 (w_seq w); OErr] /\
-  r_closed (fst (recv_conn W lease false true s w)) = false.
+  snd (recv_conn W lease false false s w) = [OMark 0 (w_seq w); OClosed].
 Proof.
-  intros Hc He Hb Hw Hk. rewrite recv_conn_established. unfold recv, dispatch. rewrite Hc, He, Hb, Hk.
-  cbn [is_warning] in Hw. apply negb_true_iff in Hw. rewrite Hw.
-  assert (Hd : (desc =? desc_close_notify) = false) by (apply orb_false_iff in Hw; tauto). rewrite Hd.
-  destruct (r_epoch s <? 0) eqn:E; [lia|]. cbn. now rewrite Hc.
+  intros Hc He Hb Hd Hk. unfold recv_conn. cbn [andb negb]. unfold disp_content. rewrite He, Hb.
+  cbn [N.eqb is_warning]. rewrite N.eqb_refl. cbn [orb negb].
+  rewrite recv_fb_open. unfold recv, dispatch. rewrite Hc, He, Hb, Hk. rewrite N.eqb_refl.
+  destruct (r_epoch s <? 0) eqn:E; [lia|]. cbn.
+  destruct (desc =? desc_close_notify) eqn:E2; [lia|]. reflexivity.
 Qed.
 
 (* ... and so it is while a dual-stack endpoint is still negotiating the version (abcaac6; before, the
